@@ -523,6 +523,12 @@ def run(rep):
                 a.setdefault("t_before_idx", True)
             C06.rule_provision(rep, t, m)
         rep.guarded("R-C06-provision", prov)
+    # the fixed-input output estimate (chunk·mean(ratio,target) + 10) assumes the ramp is spread over exactly that many frames: shared with C06
+    for t in RESAMPLERS:
+        if RESAMPLERS[t]["async"]:
+            rep.guarded("R-C06-step", lambda r, t=t: C06.rule_step(r, t, asyncmodel.extract(facts, t)))
+    rep.floor("R-C06-step", 4 * 3 + 18)
+    rep.clause("R-C06-step", "position and step advance once per frame and the ramp increment is (1/target − 1/ratio)/frames with the frame count the output estimate uses (shared with C06)")
     rep.floor("R-C04-agree", 1 + 14)
     rep.floor("R-C04-counter", 2 + 9)
     rep.floor("R-C04-max-const", 14)
